@@ -36,7 +36,7 @@ ANCHORS = [
     "acnportal.acnsim.models.battery:Linear2StageBattery._charge_stepwise",
     "acnportal.acnsim.models.ev:EV.charge",
 ]
-REQUIRED = ["calls_with_voltage_or_period_changing_on_one_battery", "battery_json_round_trips_mid_sequence", "charge_calls_judged", "regime:ideal", "regime:l2-continuous", "regime:l2-stepwise",
+REQUIRED = ["second_simulations_with_reset_evs", "calls_with_voltage_or_period_changing_on_one_battery", "battery_json_round_trips_mid_sequence", "charge_calls_judged", "regime:ideal", "regime:l2-continuous", "regime:l2-stepwise",
             "regime:l2-continuous+noise", "regime:l2-stepwise+noise", "sim_cells_checked", "suite:charge_calls_judged", "resets_above_capacity", "resets_within_capacity"]
 BUDGET_S = {"quick": 200, "thorough": 2400}
 
@@ -153,7 +153,7 @@ def cases(seed, tier):
         sch = rng.choice(["scripted", "scripted", "uncontrolled", "sorted"])
         kinds = ("EVSE", "DB", "FR") if sch != "sorted" else ("EVSE", "FR")
         d = gen.scenario(rng, sched=sch, kinds=kinds, noise_p=0.5, constraint_free_p=0.0 if sch == "sorted" else 0.2)
-        out.append({"kind": "sim", "desc": d})
+        out.append({"kind": "sim", "desc": d, "reuse_evs": rng.random() < 0.4})
     out.append({"kind": "suite"})  # the repository's own tests as one more workload under the same post-condition
     return out
 
@@ -264,6 +264,21 @@ def _run_sim(case, obs):
     from vlib.monitors import SimProbe
     d = case["desc"]
     sim, evs = build.build_sim(d)
+    _sim_once(obs, d, sim, "first use of the EV objects")
+    if case.get("reuse_evs"):
+        # day 2: the same EV objects after their public reset(), on a fresh network and simulator, under a scheduler that keeps
+        # some connected cars at 0 A for their first periods (one at a time)
+        for e in evs:
+            e.reset()
+        d2 = dict(d, scheduler={"kind": "scripted", "mr": 1, "seed": d.get("np_seed", 1), "t0": 0, "p_empty": 0.0, "max_len": 1, "p_st": 0.35,
+                                "mode": "random"})
+        sim2, _ = build.build_sim(d2, evs=evs)
+        obs.ev("second_simulations_with_reset_evs")
+        _sim_once(obs, d2, sim2, "EV objects reused after reset()")
+
+
+def _sim_once(obs, d, sim, how):
+    from vlib.monitors import SimProbe
     probe = SimProbe(sim, snapshots=False).attach()
     exc = probe.run()
     probe.detach()
@@ -277,7 +292,7 @@ def _run_sim(case, obs):
     if bad.any():
         i, t = map(int, np.argwhere(bad)[0])
         obs.violate("sim_rate_outside_0_pilot",
-                    f"station row {i} period {t}: rate {cr[i, t]!r} pilot {ps[i, t]!r}",
+                    f"{how}: station row {i} period {t}: rate {cr[i, t]!r} pilot {ps[i, t]!r}",
                     station=sim.network.station_ids[i], period=t, rate=cr[i, t], pilot=ps[i, t])
     if (cr != 0).any():
         obs.nontrivial()
